@@ -25,7 +25,8 @@ CHECKS = {
              "which is fixed by the shape of a fixed emitted fragment.",
         note="Assumes Python's try/except semantics and that all emitters "
              "paste into one render function namespace; does not evaluate the "
-             "fallback expression or the rendered text."),
+             "fallback expression or the rendered text. "
+             "Known findings: tal:on-error on a metal:fill-slot / metal:define-macro element is not part of the node registered as filler / macro."),
     "C05": dict(
         technique="abstract interpretation of the scope-binding emitters "
                   "(pairing of save/restore fragments, liveness of backup "
@@ -46,7 +47,8 @@ CHECKS = {
              "Also decided: the tal:on-error handler restores the local "
              "variables from a per-node snapshot (the straight-line restore "
              "code is skipped by the failure); scopes opened for lambda / "
-             "comprehension variables are copies closed on every exit."),
+             "comprehension variables are copies closed on every exit. "
+             "Known findings: a global defined inside an element that binds the same name locally is erased at that element's end; the helper locals translate / decode / on_error_handler shadow template variables of those names."),
     "C02": dict(
         technique="taint analysis over all syntactic paths of the embedded "
                   "escape routine; sink table by abstract interpretation of "
@@ -68,7 +70,8 @@ CHECKS = {
         note="Trusted: str.replace/re semantics; str() of an exact int/"
              "float is harmless; output of the translation function for "
              "static template text; dict-attribute *keys* are written raw "
-             "(the statement speaks of values)."),
+             "(the statement speaks of values). "
+             "Known findings: dictionary keys are written unescaped; a string: expression nested in ${...} is escaped twice."),
     "C01": dict(
         technique="abstract interpretation of MacroProgram.visit_element "
                   "(wrapper nesting for all statement subsets at once, "
@@ -150,7 +153,8 @@ CHECKS = {
              "paths, and that HTML boolean defaults apply only outside XML "
              "mode without an explicit set.",
         note="Concrete override outcomes for concrete dict contents are not "
-             "computed; escaping of the values is C02."),
+             "computed; escaping of the values is C02. "
+             "Known findings: a value-less static attribute keeps its empty '=' and quote when a computed value goes into it; a dictionary beats a later named statement that was merged at a static attribute's position; entity decoding before the split lets '&amp;...;' swallow the next statement."),
     "C09": dict(
         technique="writer/reader agreement of key expressions; emission-tree "
                   "rules for the macro prologue, define-slot and use-macro "
@@ -249,7 +253,7 @@ CHECKS = {
              "template is never rejected' only through necessary conditions "
              "(DOTALL statement regexes, guarded stack indices, parse sites "
              "converting SyntaxError).  Chains are followed inside one "
-             "function (parameters are assumed to be faithful tokens).  "
+             "function (parameters are assumed to be faithful tokens).   "
              "Known findings: KeyError / LookupError for undeclared prefixes "
              "/ unknown expression types."),
     "C18": dict(
@@ -269,7 +273,8 @@ CHECKS = {
              "validation and the xmlns-declaration drop agree with the four "
              "language namespaces.",
         note="Equality of outputs across prefix spellings is not computed; "
-             "duplicate attribute names in one tag are assumed absent."),
+             "duplicate attribute names in one tag are assumed absent. "
+             "Known finding: attributes with equal expanded names (two prefixes, one URI) collapse in ns_attrs and misalign the drop set."),
     "C17": dict(
         technique="constant folding of the BOM table (row order, prefix "
                   "shadowing, BOM consumption per codec); structural decision "
@@ -356,7 +361,8 @@ CHECKS = {
              "text template encodes the result with the template's "
              "encoding.",
         note="The ${...} delimiting itself is C06; CR/CRLF rewriting "
-             "applies to text templates too (by design)."),
+             "applies to text templates too (by design). "
+             "Known finding: a text template file is decoded by read_bytes, i.e. by a <meta charset> or XML declaration it merely contains."),
     "C14": dict(
         technique="effect analysis over the call graph of the render entry "
                   "points; immutability census of the generated preamble; "
@@ -376,7 +382,8 @@ CHECKS = {
         note="NECESSARY CONDITIONS ONLY.  Thread schedules (interleavings "
              "of cook_check, the unlocked check-then-act of the loader "
              "registry and of utils.module_cache) and cross-process equality "
-             "are not decided by any rule here."),
+             "are not decided by any rule here. "
+             "Known finding: the static attribute dictionary bound to 'attrs' is one object for all renders."),
     "C08": dict(
         technique="path rules on RepeatDict.__call__ (iterator identity), "
                   "emission-tree skeleton of the repeat loop, def-use of "
@@ -395,7 +402,8 @@ CHECKS = {
              "arithmetic, decided symbolically).",
         note="The digit loops of letter/Letter/roman/Roman, the boundaries "
              "26 and 3999 and CPython's list_iterator.__length_hint__ are "
-             "value-level and NOT decided."),
+             "value-level and NOT decided. "
+             "Known finding: repeat.<name> of an outer loop is not put back after a nested loop that reuses the name."),
     "C06": dict(
         technique="sibling agreement of the four interpolation contexts "
                   "(abstract interpretation of the node constructors), "
